@@ -212,6 +212,15 @@ def merge_laws(tier, seed, ci, nc):
             yield ('merge', [D(s, fn=1), D(s, fn=1)])
             yield ('merge', [D(bare, fn=2), D(s, fn=1)])
             yield ('merge', [D(s, fn=1), D(bare, fn=2)])
+            # the same laws on a fully annotated copy (eager, and postponed: PEP 563): equality in the library's sense
+            # includes annotations and upgraded annotations
+            for post in (False, True):
+                sa = tuple(P(q[0], q[1], q[2], (2 * j + 3) if post else (2 * j + 2), ('q', 2 * j + 3, 1) if post else ('p', 2 * j + 2))
+                           for j, q in enumerate(s))
+                yield ('merge', [D(sa, fn=1)])
+                yield ('merge', [D(sa, fn=1), D(sa, fn=1)])
+                yield ('merge', [D(bare, fn=2), D(sa, fn=1)])
+                yield ('merge', [D(sa, fn=1), D(bare, fn=2)])
     return _slice(gen(), ci, nc)
 
 
@@ -1102,6 +1111,8 @@ def probes_c11(tier, seed, ci, nc):
     yield ('rt:class_annotations',)
     yield ('rt:annotate_discovery',)
     yield ('rt:none_annotation',)
+    yield ('rt:wrapped_annotations',)
+    yield ('rt:wraps_crossmodule',)
 
 
 STREAMS['probes_c11'] = probes_c11
